@@ -4,7 +4,7 @@
    gives an online, append-only assembler).  Proved for the id-reuse / classification / visibility logic
    of FromPcap (Import.dump, Import.classify, reader stack); the extension property itself is proved for
    no assembler here (UDP: one flow alone, see C05) and is what the correspondence runs check. *)
-From Pk Require Import Import ImportProofs ImportExamples ImportSnapshot ImportRestart BuilderOrder UdpInterleave.
+From Pk Require Import Import ImportProofs ImportExamples ImportSnapshot ImportSnapshotUdp ImportRestart BuilderOrder UdpInterleave UdpReplay.
 From Pk Require Import ImportIndex.
 Require Pk.IndexFormat Pk.IndexFormatWriter Pk.IndexFormatPackets Pk.IndexFormatLookup.
 From Coq Require Import Sorting.Permutation.
@@ -97,6 +97,33 @@ Theorem C08_snapshot_transparency : forall (hashf : N -> N) (thr : N) (final_flu
   import_view (import hashf thr final_flush b st nf stack) =
   import_view (import hashf thr final_flush (mkBuilder (b_known b) []) st nf stack).
 Proof. exact snapshot_transparency. Qed.
+
+(* (1d) the assembler hypothesis is DISCHARGED for the UDP assembler (every hash function, every snapshot interval): for
+   UDP-only feeds FromPcap with the chosen snapshot = FromPcap without snapshots, assuming only a property of the
+   snapshot, [valid_udp]: the feed is UDP and time-ordered, and the keep set is consistent with stream membership along
+   the full run (whenever a packet joins an open stream both have the same keep status -- a snapshot references whole
+   open streams and keeps everything not older than itself) and keeps the packets of the new captures.
+   Proof: UdpReplay.two_runs (the kept run's slots are the full run's slots minus the all-unkept ones, up to Complete
+   and to connections that one run flushed earlier). *)
+Theorem C08_replay_hypothesis_holds_for_udp : forall hashf thr ff s nf kept F, valid_udp s nf F ->
+  map forget (filter (touchedb nf) (loop_fac hashf thr ff (Some (sn_ts s)) kept (filter (keepb s) F))) =
+  map forget (filter (touchedb nf) (loop_fac hashf thr ff None [] F)).
+Proof. exact replay_ok_udp. Qed.
+
+Theorem C08_snapshot_transparency_udp : forall hashf thr ff (b : builder) (st : store) (nf : list N) (stack : list index) (s : snapshot) i0 rest,
+  store_wf st (b_known b) ->
+  new_infos st nf = i0 :: rest ->
+  let nf' := map pi_file (i0 :: rest) in
+  let oldest := fold_left (fun m i => N.min m (pi_min i)) (i0 :: rest) (pi_min i0) in
+  best_snapshot (b_snaps b) oldest None = Some s ->
+  refs_before s st ->
+  valid_udp s nf' (feed (needed_pcaps b None nf' st) (flat_map (store_get st) nf')) ->
+  import_view (import hashf thr ff b st nf stack) =
+  import_view (import hashf thr ff (mkBuilder (b_known b) []) st nf stack).
+Proof. exact snapshot_transparency_udp. Qed.
+
+Example C08_valid_udp_instance : valid_udp snap0 [1] F0.
+Proof. exact valid_udp_instance. Qed.
 
 (* all hypotheses hold together in a run where the model itself recorded the snapshot *)
 Example C08_snapshot_transparency_applies :
